@@ -93,7 +93,7 @@ def o_fit(name):
                     else:
                         inp["n_snap"] = rng.choice([1, 2, 3])
                     inp["amp"] = rng.choice([0.05, 0.01, 0.003])
-                elif rng.random() < 0.3:
+                elif rng.random() < 0.45:
                     inp["freeze_atom"] = rng.randrange(64)
                     inp["n_snap"] = int(inp["n_snap"]) * 3          # still (usually) determined
                 yield inp
